@@ -184,6 +184,21 @@ def run(ctx):
                     if not ok:
                         r3.violate("C03|R3|%s" % n, "%s selects 206 Partial Content on a path that has not established that the request carries a Range header" % n, s["span"]["file"], s["span"]["line"], n)
 
+    # R3b the converse: the function that turns the static lookup into a response does select 206
+    r3b = chk.rule("R3b-range-answers-are-206", "every function that hands the result of the static lookup (process_static_resources) to the response selects the 206 entry somewhere (in itself or a private helper): a Range request must not be answered 200 with a slice", floor=1)
+    for n in sorted(G.reachable(R.connection_roots())):
+        fn0 = F.fns.get(n)
+        if fn0 is None or fn0.crate != "rws" or fn0.kind == "Promoted":
+            continue
+        if not any((callee_name(t) or "").endswith("::process_static_resources") for _, t in fn0.calls()):
+            continue
+        fi = ctx.inl(fn0)
+        di = du_of(fi)
+        has = any(s_["k"] == "assign" and s_["rv"]["k"] in ("use", "ref") and status_entry_of(di.val_rvalue(s_["rv"], 0, b_["id"])) == "const:n206_partial_content" for b_ in fi.blocks if not b_.get("cleanup") for s_ in b_["stmts"])
+        r3b.instance({"fn": n, "selects_206": has}, has)
+        if not has:
+            r3b.violate("C03|R3b|%s" % n, "%s answers for the static lookup and never selects 206 Partial Content: a Range request gets its slice under another status" % n, fn0.file, fn0.span["line"], n)
+
     # R8 the request's Range header is what the range computation receives
     r6 = chk.rule("R8-range-header-reaches-the-computation", "the header argument of every call of the range computation (Range::get_content_range_list) in request-reachable code is, where the request carries a Range header, that header: the argument has a definition taken from the request's Range lookup under the lookup's Some edge, and the call is reachable from it", floor=4)
     from .parse_common import deep_strings
